@@ -1226,3 +1226,98 @@ Proof.
     + eapply thr_ok_sameA; [exact S|exact Ht].
     + eapply thr_ok_sameA; [exact S|apply (a_thr _ _ I u); exact Hu].
 Qed.
+
+(* ---------- the write mutex field through the primitive updates ---------- *)
+Lemma wmtx_modc g k f : wmtx (modc g k f) = wmtx g.
+Proof. apply modc_fields. Qed.
+Lemma wmtx_setn g k n : wmtx (setn g k n) = wmtx g.
+Proof. apply wmtx_modc. Qed.
+Lemma wmtx_setz g k r : wmtx (setz g k r) = wmtx g.
+Proof. apply wmtx_modc. Qed.
+Lemma wmtx_construct g k b : wmtx (fst (do_construct g k b)) = wmtx g.
+Proof. apply construct_fields. Qed.
+Lemma wmtx_destroy g k : wmtx (fst (do_destroy g k)) = wmtx g.
+Proof. apply destroy_fields. Qed.
+Lemma wmtx_dealloc g k : wmtx (fst (do_dealloc g k)) = wmtx g.
+Proof. apply dealloc_fields. Qed.
+Lemma wmtx_alloc g b : wmtx (fst (do_alloc g b)) = wmtx g.
+Proof. reflexivity. Qed.
+Lemma wmtx_fault g : wmtx (with_fault g) = wmtx g. Proof. reflexivity. Qed.
+Lemma wmtx_misuse g : wmtx (with_misuse g) = wmtx g. Proof. reflexivity. Qed.
+Lemma wmtx_zhead g x : wmtx (with_zhead g x) = wmtx g. Proof. reflexivity. Qed.
+Lemma wmtx_zlog g x : wmtx (with_zlog g x) = wmtx g. Proof. reflexivity. Qed.
+Lemma wmtx_head g x : wmtx (with_head g x) = wmtx g. Proof. reflexivity. Qed.
+Lemma wmtx_tail g x : wmtx (with_tail g x) = wmtx g. Proof. reflexivity. Qed.
+Lemma wmtx_pos g a b : wmtx (with_pos g a b) = wmtx g. Proof. reflexivity. Qed.
+Lemma wmtx_commit g m : wmtx (commit g m) = wmtx g. Proof. reflexivity. Qed.
+Lemma wmtx_null g k : wmtx (fst (null_call g k)) = wmtx g. Proof. reflexivity. Qed.
+#[export] Hint Rewrite wmtx_setn wmtx_setz wmtx_construct wmtx_destroy wmtx_dealloc wmtx_alloc wmtx_fault wmtx_misuse
+  wmtx_zhead wmtx_zlog wmtx_head wmtx_tail wmtx_pos wmtx_commit wmtx_null : wm.
+
+Lemma InvA_nonholder' g g' ls t l l' :
+  InvA g ls -> nth_error ls t = Some l ->
+  holds (at_ l) = false -> holds (at_ l') = false -> wmtx g' = wmtx g -> sameA g g' -> thr_ok g l' ->
+  InvA g' (upd ls t l').
+Proof. intros. eapply InvA_nonholder; eauto. eapply thr_ok_sameA; eauto. Qed.
+
+Lemma mono_trans a b c : mono a b -> mono b c -> mono a c.
+Proof. intros [A1 A2] [B1 B2]. split; auto. Qed.
+Lemma mono_fault g : mono g (with_fault g).
+Proof. split; auto. Qed.
+Lemma GS_fault g p : GS g p -> GS (with_fault g) p.
+Proof. apply GS_frame. apply sameA_fault, sameA_refl. Qed.
+
+Lemma thr_ok_intro g pr p' h' its' :
+  (forall c, In c (its_refs its') -> pubn g c) -> (forall c, In c (pc_refs p') -> pubn g c) ->
+  (forall z, priv_rec p' = Some z -> isrec g z = true) ->
+  (forall w z, h' = Some (w, Some z) -> isrec g z = true) ->
+  (in_unlock p' = true -> exists w z, h' = Some (w, Some z)) ->
+  thr_ok g (Loc pr p' h' its').
+Proof.
+  intros A B C D E. constructor; cbn [at_ hnd its nrefs]; auto.
+  intros c Hc. apply in_app_or in Hc. destruct Hc; auto.
+Qed.
+Lemma head_pubn g p k : GS g p -> head g = Some k -> pubn g k.
+Proof.
+  intros G H. destruct (gs_fwd _ _ G) as [A _]. rewrite H in A. symmetry in A. destruct (hd_opt_In _ _ A) as [r E].
+  assert (In k (lst g)) by (rewrite E; left; reflexivity). split; [apply (gs_nodes _ _ G); auto|left; auto].
+Qed.
+Lemma pc_refs_reclaim g n : pc_refs (reclaim_at g n) = [].
+Proof. unfold reclaim_at. destruct (znode (grec g n)); [reflexivity|]. destruct (unfixed g); reflexivity. Qed.
+Lemma priv_rec_reclaim g n : priv_rec (reclaim_at g n) = None.
+Proof. unfold reclaim_at. destruct (znode (grec g n)); [reflexivity|]. destruct (unfixed g); reflexivity. Qed.
+Lemma in_unlock_reclaim g n : in_unlock (reclaim_at g n) = true.
+Proof. unfold reclaim_at. destruct (znode (grec g n)); [reflexivity|]. destruct (unfixed g); reflexivity. Qed.
+Lemma holds_reclaim g n : holds (reclaim_at g n) = false.
+Proof. unfold reclaim_at. destruct (znode (grec g n)); [reflexivity|]. destruct (unfixed g); reflexivity. Qed.
+Lemma pc_refs_body o : pc_refs (body_pc o) = [].
+Proof. destruct o; reflexivity. Qed.
+Lemma priv_rec_body o : priv_rec (body_pc o) = None.
+Proof. destruct o; reflexivity. Qed.
+Lemma in_unlock_body o : in_unlock (body_pc o) = false.
+Proof. destruct o; reflexivity. Qed.
+Lemma holds_body o : holds (body_pc o) = false.
+Proof. destruct o; reflexivity. Qed.
+Lemma nx_pubn g p k m : GS g p -> pubn g k -> nnext (gnode g k) = Some m -> pubn g m.
+Proof. intros G Hk Hm. apply (gs_next _ _ G k m Hk Hm). Qed.
+
+Lemma InvA_holder' g g' ls t l l' :
+  InvA g ls -> nth_error ls t = Some l ->
+  holds (at_ l) = true -> holds (at_ l') = true -> wmtx g' = wmtx g ->
+  GS g' (at_ l') -> mono g g' -> thr_ok g l' ->
+  InvA g' (upd ls t l').
+Proof. intros. eapply InvA_holder; eauto. eapply thr_ok_mono; eauto. Qed.
+
+Lemma GS_mono_fault g g' p : GS g' p /\ mono g g' -> GS (with_fault g') p /\ mono g (with_fault g').
+Proof. intros [A B]. split; [apply GS_fault; exact A|eapply mono_trans; [exact B|apply mono_fault]]. Qed.
+Lemma GS_mono_refl g p : GS g p -> GS g p /\ mono g g.
+Proof. intros H. split; [exact H|split; auto]. Qed.
+Lemma GS_mono_sameA g g' p p' : sameA g g' -> plain p = true -> plain p' = true -> GS g p -> GS g' p' /\ mono g g'.
+Proof. intros S Hp Hp' G. split; [eapply GS_frame; [exact S|apply (GS_plain g p p' Hp Hp' G)]|apply mono_sameA; exact S]. Qed.
+
+Lemma InvA_holder2 g g' ls t l l' :
+  InvA g ls -> nth_error ls t = Some l ->
+  holds (at_ l) = true -> holds (at_ l') = true -> wmtx g' = wmtx g ->
+  GS g' (at_ l') /\ mono g g' -> thr_ok g l' ->
+  InvA g' (upd ls t l').
+Proof. intros ? ? ? ? ? [? ?] ?. eapply InvA_holder'; eauto. Qed.
